@@ -1,4 +1,146 @@
 /-
-  C10 — inverted / inverse-closed definitions.  Property theorems only (filled in as proofs land).
+  C10 — graph-definition operations (`CayleyGraphDef`, permutation part; `MatrixGenerator.inv`):
+  inverse map, inverse-closed flag, inverted definition, inverse closure, path reversal.
+  Property theorems only; proofs are in `CvProofs/GraphDef.lean`.
 -/
-import CvModel.GraphDef
+import CvProofs.GraphDef
+namespace Cv.C10
+open Cv.Perm Cv.GraphDef
+
+/-! concrete instances used for the non-vacuity examples -/
+
+/-- LRX(4): L, R, X -/
+def lrx4 : PermDef := ⟨[[1,2,3,0],[3,0,1,2],[1,0,2,3]], ["L","R","X"], [0,1,2,3], "lrx-4"⟩
+/-- a single 3-cycle: not inverse closed -/
+def c3 : PermDef := ⟨[[1,2,0]], ["1,2,0"], [0,1,2], "c3"⟩
+/-- its inverse closure -/
+def c3ic : PermDef := ⟨[[1,2,0],[2,0,1]], ["1,2,0","1,2,0'"], [0,1,2], "c3-ic"⟩
+
+theorem lrx4_created : PermDef.create lrx4.gens (some lrx4.names) (some lrx4.central) lrx4.name = some lrx4 := by
+  rw [create_self_iff]; decide
+theorem c3_created : PermDef.create c3.gens (some c3.names) (some c3.central) c3.name = some c3 := by
+  rw [create_self_iff]; decide
+theorem c3_makeIC : c3.makeInverseClosed = some c3ic := by
+  rw [makeIC_unfold, if_neg (by decide), create_eq_some_iff]
+  exact ⟨[1,2,0], [[2,0,1]], by decide, by decide, by decide, by decide, by decide, by decide,
+    by unfold c3ic; congr 1 <;> decide⟩
+theorem c3_inverted : c3.inverted = some ⟨[[2,0,1]], ["2,0,1"], [0,1,2], ""⟩ := by
+  unfold PermDef.inverted
+  rw [create_eq_some_iff]
+  exact ⟨[2,0,1], [], by decide, by decide, by decide, by decide, by decide, by decide,
+    by congr 1 <;> decide⟩
+
+theorem lastIndexOf_spec {β : Type} [BEq β] [LawfulBEq β] (l : List β) (x : β) :
+    (∀ j, lastIndexOf l x = some j → l[j]? = some x ∧ ∀ k, j < k → l[k]? ≠ some x) ∧
+    (lastIndexOf l x = none ↔ x ∉ l) := by
+  exact Cv.GraphDef.lastIndexOf_spec l x
+example : lastIndexOf [5, 7, 5, 9] 5 = some 2 ∧ lastIndexOf [5, 7, 5, 9] 4 = none := by decide
+
+/-- the inverse map is correct: generator i composed with the generator it maps to is the identity -/
+theorem inverseMapPerm_spec (n : Nat) (ps : List (List Nat)) (hps : ∀ p ∈ ps, IsPermOf n p)
+    (m : List Nat) (h : inverseMapPerm ps = some m) :
+    m.length = ps.length ∧ ∀ i, i < ps.length →
+      ∃ j, m[i]? = some j ∧ j < ps.length ∧ ps.getD j [] = inverse (ps.getD i []) ∧
+           compose (ps.getD i []) (ps.getD j []) = identity n ∧
+           compose (ps.getD j []) (ps.getD i []) = identity n := by
+  exact Cv.GraphDef.inverseMapPerm_spec n ps hps m h
+example : (∀ p ∈ lrx4.gens, IsPermOf 4 p) ∧ inverseMapPerm lrx4.gens = some [1, 0, 2] := by decide
+
+/-- the inverse-closed flag is correct -/
+theorem inverseClosed_iff (ps : List (List Nat)) :
+    (inverseMapPerm ps).isSome = true ↔ ∀ p ∈ ps, inverse p ∈ ps := by
+  exact Cv.GraphDef.inverseClosed_iff ps
+example : (inverseMapPerm lrx4.gens).isSome = true ∧ (inverseMapPerm c3.gens).isSome = false := by decide
+
+/-- inverted definition: generator i undoes generator i, same central state -/
+theorem inverted_spec (d d' : PermDef) (h : d.inverted = some d') :
+    d'.central = d.central ∧ d'.gens = d.gens.map inverse := by
+  exact Cv.GraphDef.inverted_spec d d' h
+example : c3.inverted = some ⟨[[2,0,1]], ["2,0,1"], [0,1,2], ""⟩ := c3_inverted
+
+theorem inverted_succeeds (d : PermDef)
+    (hd : PermDef.create d.gens (some d.names) (some d.central) d.name = some d) :
+    (d.inverted).isSome = true := by
+  exact Cv.GraphDef.inverted_succeeds d hd
+example : PermDef.create lrx4.gens (some lrx4.names) (some lrx4.central) lrx4.name = some lrx4 :=
+  lrx4_created
+
+/-- inverse closure: keeps generators, names, order, central state; appends exactly the missing
+inverses -/
+theorem makeIC_prefix (d d' : PermDef) (h : d.makeInverseClosed = some d') :
+    d'.central = d.central ∧ d.gens <+: d'.gens ∧ d.names <+: d'.names ∧
+    (∀ q, q ∈ d'.gens ↔ q ∈ d.gens ∨ (∃ p ∈ d.gens, q = inverse p ∧ inverse p ∉ d.gens)) := by
+  exact Cv.GraphDef.makeIC_prefix d d' h
+example : c3.makeInverseClosed = some c3ic := c3_makeIC
+
+/-- the closure reports itself inverse-closed -/
+theorem makeIC_closed (d d' : PermDef) (hvalid : ∀ p ∈ d.gens, IsPermOf d.central.length p)
+    (h : d.makeInverseClosed = some d') : d'.inverseClosed = true := by
+  exact Cv.GraphDef.makeIC_closed d d' hvalid h
+example : (∀ p ∈ c3.gens, IsPermOf c3.central.length p) ∧ c3.makeInverseClosed = some c3ic ∧
+    c3.inverseClosed = false ∧ c3ic.inverseClosed = true :=
+  ⟨by decide, c3_makeIC, by decide, by decide⟩
+
+/-- idempotent -/
+theorem makeIC_idem (d d' : PermDef) (hvalid : ∀ p ∈ d.gens, IsPermOf d.central.length p)
+    (h : d.makeInverseClosed = some d') : d'.makeInverseClosed = some d' := by
+  exact Cv.GraphDef.makeIC_idem d d' hvalid h
+example : (∀ p ∈ c3.gens, IsPermOf c3.central.length p) ∧ c3.makeInverseClosed = some c3ic :=
+  ⟨by decide, c3_makeIC⟩
+
+theorem makeIC_succeeds (d : PermDef)
+    (hd : PermDef.create d.gens (some d.names) (some d.central) d.name = some d) :
+    (d.makeInverseClosed).isSome = true := by
+  exact Cv.GraphDef.makeIC_succeeds d hd
+example : PermDef.create c3.gens (some c3.names) (some c3.central) c3.name = some c3 := c3_created
+
+/-- the appended inverses are named `name'`; the graph name gets the suffix `-ic` -/
+theorem makeIC_names (d d' : PermDef) (h : d.makeInverseClosed = some d')
+    (hnc : d.inverseClosed = false) :
+    d'.names = d.names ++ ((List.zip d.gens d.names).filterMap fun (p, nm) =>
+        if d.gens.contains (inverse p) then none else some (nm ++ "'")) ∧
+    d'.name = (if d.name != "" then d.name ++ "-ic" else d.name) := by
+  exact Cv.GraphDef.makeIC_names d d' h hnc
+example : c3.makeInverseClosed = some c3ic ∧ c3.inverseClosed = false ∧
+    c3ic.names = ["1,2,0", "1,2,0'"] ∧ c3ic.name = "c3-ic" :=
+  ⟨c3_makeIC, by decide, by decide, by decide⟩
+
+/-- (additional) the appended generators are exactly the missing inverses, in generator order -/
+theorem makeIC_gens (d d' : PermDef) (h : d.makeInverseClosed = some d')
+    (hnc : d.inverseClosed = false) :
+    d'.gens = d.gens ++ (d.gens.filter fun p => !d.gens.contains (inverse p)).map inverse := by
+  exact Cv.GraphDef.makeIC_gens d d' h hnc
+example : c3.makeInverseClosed = some c3ic ∧ c3.inverseClosed = false := ⟨c3_makeIC, by decide⟩
+/-- corner case (observation, not a defect of the statements above): a generator listed twice gets its
+missing inverse appended twice -/
+example : icExtra ⟨[[1,2,0],[1,2,0]], ["a","b"], [0,1,2], ""⟩ = [([2,0,1], "a'"), ([2,0,1], "b'")] := by
+  decide
+
+/-- reverting a valid path A→B gives a valid path B→A of the same length (action on states of
+length n) -/
+theorem revertPath_spec (n : Nat) (ps : List (List Nat)) (hps : ∀ p ∈ ps, IsPermOf n p)
+    (m path rev : List Nat) (hm : inverseMapPerm ps = some m) (hpath : ∀ i ∈ path, i < ps.length)
+    (hr : revertPath (some m) path = some rev) (A : List Nat) (hA : A.length = n) :
+    rev.length = path.length ∧
+    Cv.applyPath (fun i s => apply (ps.getD i []) s)
+      (Cv.applyPath (fun i s => apply (ps.getD i []) s) A path) rev = A := by
+  exact Cv.GraphDef.revertPath_spec n ps hps m path rev hm hpath hr A hA
+example : (∀ p ∈ lrx4.gens, IsPermOf 4 p) ∧ inverseMapPerm lrx4.gens = some [1, 0, 2] ∧
+    (∀ i ∈ [0, 0, 2, 1], i < lrx4.gens.length) ∧
+    revertPath (some [1, 0, 2]) [0, 0, 2, 1] = some [0, 2, 1, 1] ∧
+    Cv.applyPath (fun i s => apply (lrx4.gens.getD i []) s) [7, 8, 9, 10] [0, 0, 2, 1] = [8, 10, 9, 7] ∧
+    Cv.applyPath (fun i s => apply (lrx4.gens.getD i []) s) [8, 10, 9, 7] [0, 2, 1, 1] = [7, 8, 9, 10] := by
+  decide
+
+/-- `MatrixGenerator.inv`: an accepted candidate is a right inverse -/
+theorem Matrix.inv_sound (B n : Nat) (A cand R : List Nat) (h : Cv.Matrix.inv B n A cand = some R) :
+    Cv.Matrix.apply B n n A R = Cv.Matrix.eye n := by
+  exact Cv.GraphDef.Matrix.inv_sound B n A cand R h
+example : Cv.Matrix.inv 5 2 [1, 1, 0, 1] [1, 4, 0, 1] = some [1, 4, 0, 1] := by decide
+
+theorem Matrix.isInverse_symm (B n : Nat) (A C : List Nat) :
+    Cv.Matrix.isInverse B n A C = Cv.Matrix.isInverse B n C A := by
+  exact Cv.GraphDef.Matrix.isInverse_symm B n A C
+example : Cv.Matrix.isInverse 5 2 [1, 1, 0, 1] [1, 4, 0, 1] = true := by decide
+
+end Cv.C10
